@@ -989,3 +989,137 @@ Proof.
   destruct HI as [Hf _]. unfold inv_cpu. rewrite forallb_forall in *. intros g Hin.
   rewrite (fits_nc0 ncpu g (Hg g Hin) []). exact (Hf g Hin).
 Qed.
+
+(* ---------------------------------------------------------------- cpu: the framing lemma with the inherited cpu set *)
+
+Definition ccontrib (ncpu : Z) (inh : list Z) (g : group) : Z :=
+  Z.max (cpu_alloc ncpu inh (lim g)) (cpu_resv ncpu inh g).
+Fixpoint csum (ncpu : Z) (e : list Z) (ss : list group) : Z :=
+  match ss with [] => 0 | c :: r => ccontrib ncpu e c + csum ncpu e r end.
+
+Lemma cresv_eq : forall ncpu inh i l ss, cpu_resv ncpu inh (G i l ss) = csum ncpu (eff_set inh l) ss.
+Proof.
+  intros. cbn [cpu_resv]. generalize (eff_set inh l). intro e. induction ss as [|c r IH]; [reflexivity|].
+  cbn [csum]. unfold ccontrib. rewrite IH. reflexivity.
+Qed.
+
+Lemma cfits_eq : forall ncpu inh i l ss, cpu_fits_tree ncpu inh (G i l ss) =
+  ((cpu_alloc ncpu inh l =? 0) || (csum ncpu (eff_set inh l) ss <=? cpu_alloc ncpu inh l)) &&
+  forallb (cpu_fits_tree ncpu (eff_set inh l)) ss.
+Proof.
+  intros. change (cpu_fits_tree ncpu inh (G i l ss)) with
+    (((cpu_alloc ncpu inh l =? 0) || (cpu_resv ncpu inh (G i l ss) <=? cpu_alloc ncpu inh l)) &&
+     (let e := eff_set inh l in
+      (fix all (cs : list group) : bool := match cs with [] => true | c :: r => cpu_fits_tree ncpu e c && all r end) ss)).
+  rewrite cresv_eq. cbv zeta. f_equal; try (generalize (eff_set inh l); intro e; induction ss as [|c r IH]; [reflexivity|simpl; rewrite IH; reflexivity]).
+Qed.
+
+(* counts and percentages are non-negative everywhere in the tree *)
+Fixpoint cnn (g : group) : bool :=
+  match g with G _ l ss => (0 <=? l_cnt l) && (0 <=? l_pct l) && forallb cnn ss end.
+
+Lemma alloc_nonneg : forall ncpu inh l, 0 <= ncpu -> 0 <= l_cnt l -> 0 <= l_pct l -> 0 <= cpu_alloc ncpu inh l.
+Proof.
+  intros ncpu inh l Hn Hc Hp. unfold cpu_alloc. destruct (l_pct l =? 0); [lia|].
+  destruct (negb (l_cnt l =? 0)); [nia|].
+  assert (0 <= zlen (eff_set inh l)) by (unfold zlen; lia).
+  destruct (negb (zlen (eff_set inh l) =? 0) && (zlen (eff_set inh l) <? ncpu)); nia.
+Qed.
+
+Lemma csum_nonneg : forall ncpu e ss, 0 <= ncpu -> forallb cnn ss = true -> 0 <= csum ncpu e ss.
+Proof.
+  intros ncpu e ss Hn. induction ss as [|c r IH]; cbn [csum forallb]; intro H; [lia|].
+  apply andb_true_iff in H. destruct H as [Hc Hr]. specialize (IH Hr).
+  destruct c as [ci cl css]. cbn [cnn] in Hc. apply andb_true_iff in Hc. destruct Hc as [Hc _].
+  apply andb_true_iff in Hc. destruct Hc as [H1 H2]. apply Z.leb_le in H1. apply Z.leb_le in H2.
+  pose proof (alloc_nonneg ncpu e cl Hn H1 H2). unfold ccontrib. cbn [lim]. lia.
+Qed.
+
+Lemma csum_replace : forall ncpu e ss i c c', nth_error ss i = Some c ->
+  csum ncpu e (replace_nth ss i c') = csum ncpu e ss + ccontrib ncpu e c' - ccontrib ncpu e c.
+Proof.
+  intros ncpu e ss. induction ss as [|x r IH]; intros i c c' H.
+  - destruct i; discriminate.
+  - destruct i as [|i]; simpl in *.
+    + inversion H; subst. lia.
+    + rewrite (IH _ _ c' H). lia.
+Qed.
+
+(* the cpu set inherited by the group at path p, and the nearest ancestor on the path that has a cpu reservation *)
+Fixpoint inh_at (inh : list Z) (g : group) (p : list nat) : list Z :=
+  match p with
+  | [] => inh
+  | i :: p' => match nth_error (subs g) i with
+               | None => inh
+               | Some c => inh_at (eff_set inh (lim g)) c p'
+               end
+  end.
+
+Fixpoint cnla (ncpu : Z) (inh : list Z) (g : group) (p : list nat) : option anc :=
+  match p with
+  | [] => None
+  | i :: p' => match nth_error (subs g) i with
+               | None => None
+               | Some c => match cnla ncpu (eff_set inh (lim g)) c p' with
+                           | Some a => Some a
+                           | None => if negb (cpu_alloc ncpu inh (lim g) =? 0) then Some (inh, g) else None
+                           end
+               end
+  end.
+
+(* Replace the group at path p (which keeps inheriting the same cpu set, since no limit on the path changes) by t' whose
+   effective contribution differs by d. If the nearest ancestor with a cpu reservation has room for d the tree still
+   fits; the change is absorbed there, or passes through groups without a cpu reservation. *)
+Lemma modify_cpu_fits : forall ncpu t' d, 0 <= ncpu -> forall p inh g t,
+  cpu_fits_tree ncpu inh g = true -> cnn g = true -> get g p = Some t ->
+  cpu_fits_tree ncpu (inh_at inh g p) t' = true -> cnn t' = true ->
+  ccontrib ncpu (inh_at inh g p) t' = ccontrib ncpu (inh_at inh g p) t + d ->
+  (forall ai a, cnla ncpu inh g p = Some (ai, a) -> cpu_resv ncpu ai a + d <= cpu_alloc ncpu ai (lim a)) ->
+  let g' := modify g p (fun _ => t') in
+  cpu_fits_tree ncpu inh g' = true /\ cnn g' = true /\
+  ccontrib ncpu inh g' = ccontrib ncpu inh g + (match cnla ncpu inh g p with Some _ => 0 | None => d end).
+Proof.
+  intros ncpu t' d Hncpu. induction p as [|i p IH]; intros inh g t Hf Hn Hg Hft Hnt Hc Hroom;
+    cbn [get cnla modify inh_at] in *.
+  - inversion Hg; subst. repeat split; solve [assumption | lia].
+  - destruct g as [gi l ss]. cbn [subs lim gid] in *.
+    destruct (nth_error ss i) as [c|] eqn:E; [|discriminate].
+    set (e := eff_set inh l) in *.
+    rewrite cfits_eq in Hf. fold e in Hf. apply andb_true_iff in Hf. destruct Hf as [Hl Hs].
+    cbn [cnn] in Hn. apply andb_true_iff in Hn. destruct Hn as [Hl0 Hns].
+    apply andb_true_iff in Hl0. destruct Hl0 as [Hc0 Hp0].
+    assert (Hal : 0 <= cpu_alloc ncpu inh l).
+    { apply alloc_nonneg; [exact Hncpu|apply Z.leb_le; exact Hc0|apply Z.leb_le; exact Hp0]. }
+    assert (Hfc : cpu_fits_tree ncpu e c = true) by exact (forallb_nth _ _ _ _ Hs E).
+    assert (Hnc : cnn c = true) by exact (forallb_nth _ _ _ _ Hns E).
+    assert (Hroomc : forall ai a, cnla ncpu e c p = Some (ai, a) -> cpu_resv ncpu ai a + d <= cpu_alloc ncpu ai (lim a)).
+    { intros ai a Ha. apply Hroom. rewrite Ha. reflexivity. }
+    destruct (IH e c t Hfc Hnc Hg Hft Hnt Hc Hroomc) as [Hfc' [Hnc' Hcc']].
+    set (c' := modify c p (fun _ => t')) in *.
+    assert (Hsum : csum ncpu e (replace_nth ss i c') = csum ncpu e ss + ccontrib ncpu e c' - ccontrib ncpu e c)
+      by exact (csum_replace _ _ _ _ _ _ E).
+    assert (Hnn' : forallb cnn (replace_nth ss i c') = true) by exact (forallb_replace _ _ _ _ Hns Hnc').
+    assert (Hpos' : 0 <= csum ncpu e (replace_nth ss i c')) by exact (csum_nonneg _ _ _ Hncpu Hnn').
+    assert (Hpos : 0 <= csum ncpu e ss) by exact (csum_nonneg _ _ _ Hncpu Hns).
+    cbv zeta. rewrite cfits_eq. fold e. cbn [cnn]. unfold ccontrib at 1 2. cbn [lim]. rewrite !cresv_eq. fold e.
+    rewrite (forallb_replace _ _ _ _ Hs Hfc'). rewrite Hnn', Hc0, Hp0.
+    destruct (cnla ncpu e c p) as [a|] eqn:En.
+    + rewrite Hsum, Hcc'. replace (csum ncpu e ss + (ccontrib ncpu e c + 0) - ccontrib ncpu e c) with (csum ncpu e ss) by lia.
+      rewrite Hl. repeat split; reflexivity || lia.
+    + destruct (cpu_alloc ncpu inh l =? 0) eqn:Z0; cbn [negb orb andb].
+      * apply Z.eqb_eq in Z0. repeat split; try reflexivity. rewrite Hsum, Hcc', Z0. lia.
+      * apply Z.eqb_neq in Z0. cbn [orb] in Hl. apply Z.leb_le in Hl.
+        assert (Hr : csum ncpu e ss + d <= cpu_alloc ncpu inh l).
+        { specialize (Hroom inh (G gi l ss)). rewrite cresv_eq in Hroom. fold e in Hroom. cbn [lim] in Hroom. apply Hroom.
+          destruct (cpu_alloc ncpu inh l =? 0) eqn:Z1; [apply Z.eqb_eq in Z1; contradiction|reflexivity]. }
+        assert (Hle : csum ncpu e (replace_nth ss i c') <= cpu_alloc ncpu inh l) by (rewrite Hsum, Hcc'; lia).
+        repeat split; try reflexivity.
+        -- apply andb_true_iff. split; [|reflexivity]. apply Z.leb_le. exact Hle.
+        -- lia.
+Qed.
+
+(* an update that leaves the effective cpu set of the group unchanged leaves the reservations below it unchanged *)
+Lemma same_effset_below : forall ncpu inh i l l' ss, eff_set inh l' = eff_set inh l ->
+  cpu_resv ncpu inh (G i l' ss) = cpu_resv ncpu inh (G i l ss) /\
+  forallb (cpu_fits_tree ncpu (eff_set inh l')) ss = forallb (cpu_fits_tree ncpu (eff_set inh l)) ss.
+Proof. intros ncpu inh i l l' ss H. rewrite !cresv_eq, H. split; reflexivity. Qed.
